@@ -122,6 +122,7 @@ func c04(c *Ctx) {
 	// the recorded sandbox id the guard compares with survives an upgrade (shared rule)
 	c05R9(c)
 	c04R7(c)
+	ruleArgSwap(c, "C04.R8", c.P.AllFuncs(), "the whole module (the pod key namespace/name identifies the record and the owner of an address)")
 }
 
 // pendingField is networkService.pendingPods
